@@ -5,7 +5,7 @@
     (a tuple), a private copy made in the same function, and is the accessor checked on the code path of
     the running Python version (pytypes.h, `#if PY_VERSION_HEX` branches evaluated for sys.hexversion)?
 (b) recursion: every self-recursive member function of PyTreeSpec / PyTreeIter in src/treespec/*.cpp and
-    whether its body has the `depth > MAX_RECURSION_DEPTH` guard; the guard's comparison operator in the
+    whether its body has the `depth > MAX_RECURSION_DEPTH` guard and every recursive call passes `depth + 1`; the guard's comparison operator in the
     three tree traversals; the value of the constant for the running Python version.
 
 Regenerates lean/OptreeModel/Generated/Access.lean."""
@@ -123,8 +123,22 @@ def recursion(repo: Path):
                 continue
             name = m.group(2)
             body = body_of(src, k)
-            if re.search(r'\b' + name + r'\s*(?:<[^;()]*>)?\s*\(', body):
+            calls = list(re.finditer(r'\b' + name + r'\s*(?:<[^;()]*>)?\s*\(', body))
+            if calls:
                 guarded = bool(re.search(r'depth\s*>\s*MAX_RECURSION_DEPTH', body))
+                # ... and every recursive call goes one level deeper: its argument list contains `depth + 1`
+                for c in calls:
+                    d, k = 0, c.end() - 1
+                    while k < len(body):
+                        if body[k] == '(':
+                            d += 1
+                        elif body[k] == ')':
+                            d -= 1
+                            if d == 0:
+                                break
+                        k += 1
+                    if not re.search(r'\bdepth\s*\+\s*1\b', body[c.end():k]):
+                        guarded = False
                 funcs.append((f'{f.name}:{name}', guarded))
     guards = []
     for rel in ('src/treespec/flatten.cpp', 'src/treespec/traversal.cpp'):
